@@ -203,6 +203,45 @@ func NewEnv(pkgs []*ssa.Package) *Env {
 						e.GBytes[g] = s
 					}
 				}
+				// []byte{c0, c1, ...} composite literal
+				if sl, ok := st.Val.(*ssa.Slice); ok && sl.Low == nil && sl.High == nil {
+					if al, ok := sl.X.(*ssa.Alloc); ok {
+						bytes := map[int64]byte{}
+						max := int64(-1)
+						good := true
+						for _, r := range ssax.Referrers(al) {
+							ia, ok := r.(*ssa.IndexAddr)
+							if !ok {
+								continue
+							}
+							idx, ok := ssax.ConstInt(ia.Index)
+							if !ok {
+								good = false
+								continue
+							}
+							for _, rr := range ssax.Referrers(ia) {
+								if s2, ok := rr.(*ssa.Store); ok && s2.Addr == ssa.Value(ia) {
+									k, ok := ssax.ConstInt(s2.Val)
+									if !ok {
+										good = false
+										continue
+									}
+									bytes[idx] = byte(k)
+									if idx > max {
+										max = idx
+									}
+								}
+							}
+						}
+						if n, ok := constArrayLen(al.Type()); ok && good && n == max+1 && n > 0 {
+							b := make([]byte, n)
+							for i, v := range bytes {
+								b[i] = v
+							}
+							e.GBytes[g] = string(b)
+						}
+					}
+				}
 			}
 		}
 	}
